@@ -69,11 +69,15 @@ def main(argv=None):
     broken = []  # broken ties / proof obligations (strings)
     try:
         # 1 regen ------------------------------------------------------------
-        ok, msg = core.regen()
-        if not ok and getattr(mod, "USES_TRANSLATOR", False):
-            broken.append("translator: " + msg)
-        elif not ok:
-            print("note: translator failed for a definition this property does not use: " + msg)
+        ok, msg, failed = core.regen()
+        uses = getattr(mod, "USES_TRANSLATOR", False)
+        uses = set(failed) if uses is True else set(uses or [])
+        mine = {k: v for k, v in failed.items() if k in uses or k == "translator"}
+        if mine:
+            broken.append("translator: " + "; ".join("%s: %s" % kv for kv in sorted(mine.items())))
+        other = {k: v for k, v in failed.items() if k not in mine}
+        if other:
+            print("note: the translator could not follow a definition this property does not use: " + "; ".join(sorted(other)))
         # 2 proof ------------------------------------------------------------
         aud = dict(obligations=0, discharged=0, axioms={}, problems=[], files=[])
         build_s = 0.0
